@@ -1324,6 +1324,16 @@ func ruleC18TextOf(c *Ctx) {
 			a, ok := callArgs(r, "strconv.FormatFloat")
 			if !ok || len(a) != 4 || a[1].Name != "102" || a[2].Name != "-1" {
 				why = append(why, "a "+kind+" is rendered by "+termStr(r)+", not by FormatFloat(v, 'f', -1, bits)")
+			} else {
+				// the number that is written is the value itself (widened from float32 at most), not a rounded or otherwise
+				// recomputed one: the join keys, IN lists and register names built from this text tell apart what Compare tells apart
+				v := a[0]
+				for v != nil && (v.Op == "conv" || v.Op == "ext") && len(v.Args) > 0 {
+					v = v.Args[0]
+				}
+				if v == nil || !(v.Op == "assertok" || v.Op == "assert") || len(v.Args) == 0 || v.Args[0].Op != "param" {
+					why = append(why, "the "+kind+" that is written is "+termStr(a[0])+", not the value itself: two numbers that compare different can get one text (hash-join keys, DISTINCT, register names merge them)")
+				}
 			}
 		} else if a, ok := callArgs(r, "fmt.Sprintf"); !ok || a[0].Name != `"%v"` {
 			why = append(why, "a non-float value is rendered by "+termStr(r))
